@@ -2,7 +2,7 @@
 # keep MANIFEST.hooks.source_commits equal to the list of "verif hooks:" commits of /repo (oldest first)
 import json, subprocess
 m = json.load(open('/verif/MANIFEST.json'))
-hs = subprocess.run("git -C /repo log --reverse --format='%h %s' | grep ' verif hooks' | cut -d' ' -f1", shell=True, capture_output=True, text=True).stdout.split()
+hs = subprocess.run("git -C /repo log --reverse --format='%h %s' | grep -E ' verif( hooks|:)' | cut -d' ' -f1", shell=True, capture_output=True, text=True).stdout.split()
 m['hooks']['source_commits'] = hs
 json.dump(m, open('/verif/MANIFEST.json', 'w'), indent=1, ensure_ascii=False)
 print(len(hs), 'hook commits')
